@@ -333,6 +333,11 @@ def _dom_roundtrip(tier, seed):
         n = rng.choice([1, 1, 2, 5, 17])
         tables.append(_fill(np, rng, dt, n, text=False))
     # layouts: strided view, a single row, a column-sliced view of a wider table is not a packed dtype (outside the statement)
+    # more than a mebibyte of rows whose size does not divide 2**20 (block-wise writers / readers)
+    big = np.zeros(200003, dtype=[("k", "u1"), ("v", "<i2", (3,))])
+    big["k"] = np.arange(big.size) % 251
+    big["v"] = (np.arange(big.size * 3).reshape(-1, 3) * 7919) % 65521 - 32000
+    tables.append(big)
     base = _fill(np, rng, fixed[0], 12, text=False)
     tables.append(base[::2])
     tables.append(base[3:4])
@@ -346,6 +351,8 @@ def _dom_roundtrip(tier, seed):
                 hs = _HEADERS
             if entry.startswith("Recfile") or entry.startswith("recfile") or entry == "io.read dtype=":
                 hs = [None]
+            if t.size > 100000:
+                hs = hs[:1]
             for h in hs:
                 k += 1
                 yield dict(call=(lambda: None), args=[], ghost=dict(table=t, header=h, entry=entry),
@@ -471,7 +478,7 @@ def history_statement(ops, delim):
             os.remove(fn)
 
 
-def same_handle_statement(chunks, header, delim, mode):
+def same_handle_statement(chunks, header, delim, mode, bad=None):
     """several writes through ONE open handle, read back only at the end (the handle's cached row count is what is exercised)"""
     import os
     import numpy as np
@@ -493,7 +500,38 @@ def same_handle_statement(chunks, header, delim, mode):
         r = same_rows(np, data, want) if delim is None else text_equal(np, data, want)
         if r is not True:
             return r
-        return header_ok(np, hdr, header, want, delim)
+        r = header_ok(np, hdr, header, want, delim)
+        if r is not True:
+            return r
+        # an incompatible chunk through the handle that has been writing (the creating handle for mode 'w') is rejected and
+        # leaves the file's bytes alone
+        if bad is not None:
+            os.remove(fn)
+            before = after = None
+            raised = False
+            if mode == "w":
+                sf = sfile.SFile(fn, mode="w", delim=delim)
+                sf.write(chunks[0], header=header)
+            else:
+                sfile.write(chunks[0], fn, header=header, delim=delim)
+                sf = sfile.SFile(fn, mode="r+", delim=delim)
+                sf.write(chunks[0])
+            try:
+                try:
+                    sf.write(bad)
+                except (ValueError, TypeError):
+                    raised = True
+            finally:
+                sf.close()
+            if not raised:
+                return "an incompatible chunk %s written through the same %r handle after %s was not rejected" % (
+                    bad.dtype.descr, mode, chunks[0].dtype.descr)
+            data = sfile.read(fn)
+            want = concat(np, [chunks[0]] if mode == "w" else [chunks[0], chunks[0]])
+            r = same_rows(np, data, want) if delim is None else text_equal(np, data, want)
+            if r is not True:
+                return "after a rejected chunk through the same handle: %s" % r
+        return True
     finally:
         if os.path.exists(fn):
             os.remove(fn)
@@ -507,7 +545,7 @@ contract("esutil.sfile#histories", params={}, assumed=True, runtime_name="esutil
 
 contract("esutil.sfile#same-handle", params={}, assumed=True, runtime_name="esutil.sfile.SFile",
          why_assumed="bounded statement oracle (labelled), see esutil.sfile#histories",
-         rt_ensures={"several-writes-through-one-handle-accumulate": "same_handle_statement(chunks, header, delim, mode) is True"},
+         rt_ensures={"several-writes-through-one-handle-accumulate": "same_handle_statement(chunks, header, delim, mode, bad) is True"},
          props=["C03"])
 
 
@@ -601,7 +639,9 @@ def _dom_handle(tier, seed):
                 text = delim is not None
                 dt = _text_dtype(np, rng) if text else _rand_dtype(np, rng, NUM + BIN_EXTRA + ["S"], 4)
                 chunks = [keep_clear_of_known_findings(np, _fill(np, rng, dt, rng.choice([1, 2, 3, 10]), text=text), delim) for _ in range(nch)]
-                yield dict(call=(lambda: None), args=[], ghost=dict(chunks=chunks, header=rng.choice(_HEADERS[:9]), delim=delim, mode=mode),
+                tag, bdt = rng.choice(_incompatible(np, rng, dt))
+                bad = keep_clear_of_known_findings(np, _fill(np, rng, bdt, 2, text=text), delim)
+                yield dict(call=(lambda: None), args=[], ghost=dict(chunks=chunks, header=rng.choice(_HEADERS[:9]), delim=delim, mode=mode, bad=bad),
                            key="delim=%r mode=%s %d writes of %s" % (delim, mode, nch, [c.size for c in chunks]))
 
 
